@@ -1000,11 +1000,17 @@ def build_advi(arg):
             parameters.append('coalescent.growth')
         if arg.coalescent == 'piecewise-exponential':
             parameters.append('coalescent.growth')
-    elif arg.birth_death is not None:
+    elif arg.birth_death == 'bdsk':
         parameters.append("bdsk.R")
         parameters.append("bdsk.delta")
         parameters.append("bdsk.rho")
         parameters.append("bdsk.origin")
+    elif arg.birth_death == 'constant':
+        parameters.append("constant.lambda")
+        parameters.append("constant.mu")
+        parameters.append("constant.psi")
+        parameters.append("constant.rho")
+        parameters.append("constant.origin")
 
     if arg.model == 'SRD06':
         for tag in ('12', '3'):
